@@ -1,55 +1,68 @@
-import MithrilModel.ClerkMono
+import MithrilModel.ClerkFixed
 /-!
 # C02 — Aggregation completeness and monotonicity under extra or repeated signatures
 
-Model: `Clerk.select` = `ConcatenationClerk::select_valid_signatures_for_k_indices`
-(`mithril-stm/src/proof_system/concatenation/clerk.rs`). `valid` is the verdict of the real
-`SingleSignature::verify` (supplied by the harness); `key = (sigma, registered party)` is what the
+Model: `Clerk.selectMerged` = `ConcatenationClerk::select_valid_signatures_for_k_indices`
+(`mithril-stm/src/proof_system/concatenation/clerk.rs`) as it is after the two `fix:` commits: valid
+copies of one signature are merged (`normalize`), then indices are arbitrated (`select`, the code before
+the repair). `valid` is the verdict of the real `SingleSignature::verify` (supplied by the harness; a
+signature with an unregistered signer index is invalid); `key = (sigma, registered party)` is what the
 code's `Eq`/`Hash` compare; `sigma` is the rank of the BLS signature bytes.
 -/
 namespace C02
 open Clerk
 
-/-- Soundness of the selection: pairwise different keys, each from a valid input signature with a
-subset of its indices, no index shared by two selected signatures, at least `k` indices in total. -/
-theorem C02_select_sound (k : Nat) (sigs out : List Sig) (h : select k sigs = .ok out) :
+/-- Soundness of the selection w.r.t. what was handed in: pairwise different keys, every selected
+index was offered by a VALID signature of that key, no index selected twice, at least `k` indices. -/
+theorem C02_select_sound (k : Nat) (sigs out : List Sig) (h : selectMerged k sigs = .ok out) :
     out.Pairwise (fun a b => a.key ≠ b.key) ∧
-    (∀ o ∈ out, ∃ t ∈ sigs, t.valid = true ∧ o.key = t.key ∧ ∀ i ∈ o.idxs, i ∈ t.idxs) ∧
+    (∀ o ∈ out, ∀ i ∈ o.idxs, ∃ s ∈ sigs, s.valid = true ∧ s.key = o.key ∧ i ∈ s.idxs) ∧
     (∀ o1 ∈ out, ∀ o2 ∈ out, o1.key ≠ o2.key → ∀ i ∈ o1.idxs, i ∉ o2.idxs) ∧
-    k ≤ (out.map (·.idxs.length)).sum := select_sound k sigs out h
+    k ≤ (out.map (·.idxs.length)).sum := selectMerged_sound k sigs out h
 
-/-- Completeness, any order: if no (key, index) pair is offered twice and the valid signatures
-carry at least `k ≥ 1` distinct indices, aggregation succeeds. -/
-theorem C02_complete_nodup (k : Nat) (sigs : List Sig) (hk0 : 0 < k) (hNR : NoRepeat sigs)
-    (I : List Nat) (hI : I.Nodup)
+/-- **Completeness, for every input**: whenever the valid signatures handed to the aggregator cover at
+least `k ≥ 1` distinct lottery indices, aggregation succeeds — whatever else is in the list (repeated
+copies, index-subset copies, invalid signatures, other messages), in whatever order. -/
+theorem C02_complete (k : Nat) (sigs : List Sig) (hk0 : 0 < k) (I : List Nat) (hI : I.Nodup)
     (hvalid : ∀ i ∈ I, ∃ s ∈ sigs, s.valid = true ∧ i ∈ s.idxs) (hk : k ≤ I.length) :
-    ∃ r, select k sigs = .ok r := select_complete k sigs hk0 hNR I hI hvalid hk
+    ∃ r, selectMerged k sigs = .ok r := selectMerged_complete k sigs hk0 I hI hvalid hk
 
-/-- Monotonicity outside the duplicate class: any interleaving of extra material (invalid
-signatures, signatures on other messages, more valid ones) that does not offer a (key, index) pair
-twice never turns a successful aggregation into a failure. -/
-theorem C02_monotone_partial (k : Nat) (hk0 : 0 < k) (l l' : List Sig) (hs : l.Sublist l')
-    (hNR : NoRepeat l') (out : List Sig) (h : select k l = .ok out) :
-    ∃ out', select k l' = .ok out' := select_monotone_partial k hk0 l l' hs hNR out h
+/-- **Monotonicity, for every input** (the FULL statement; it was false before the repair, see below):
+any interleaving of extra material never turns a successful aggregation into a failure. -/
+theorem C02_monotone (k : Nat) (hk0 : 0 < k) (l l' : List Sig) (hs : l.Sublist l')
+    (out : List Sig) (h : selectMerged k l = .ok out) : ∃ out', selectMerged k l' = .ok out' :=
+  selectMerged_monotone k hk0 l l' (offers_of_sublist hs) out h
 
-/-- invalid signatures (wrong message, corrupted, wrong slot) are skipped: they do not change the state -/
-theorem C02_invalid_ignored (st : St) (s : Sig) (h : s.valid = false) : stepSig st s = st := by
-  unfold stepSig; simp [h]
+/-- … more generally whenever `l'` offers every valid (key, index) pair `l` offers, and success depends
+only on WHICH valid pairs are offered: not on order, multiplicity or how indices are split over copies -/
+theorem C02_monotone_offers (k : Nat) (hk0 : 0 < k) (l l' : List Sig) (hs : Offers l l')
+    (out : List Sig) (h : selectMerged k l = .ok out) : ∃ out', selectMerged k l' = .ok out' :=
+  selectMerged_monotone k hk0 l l' hs out h
 
-/-- the FULL monotonicity statement of the property … -/
-def C02_monotone_goal : Prop :=
+theorem C02_order_independent (k : Nat) (hk0 : 0 < k) (l l' : List Sig) (hp : l.Perm l') :
+    (∃ o, selectMerged k l = .ok o) ↔ (∃ o, selectMerged k l' = .ok o) :=
+  selectMerged_success_iff k hk0 l l' (offers_of_perm hp) (offers_of_perm hp.symm)
+
+/-- invalid signatures (wrong message, corrupted, wrong or unregistered slot) do not change the state -/
+theorem C02_invalid_ignored (acc : List Sig) (s : Sig) (h : s.valid = false) : normStep acc s = acc := by
+  simp [normStep, h]
+
+/-- the monotonicity statement for the arbitration ALONE (the code before `fix:` …) -/
+def C02_monotone_goal_before_repair : Prop :=
   ∀ (k : Nat) (l l' : List Sig), l.Sublist l' → (∃ o, select k l = .ok o) → ∃ o', select k l' = .ok o'
 
-/-- … is FALSE for the code as it is (KNOWN FINDING): handing the same signature twice strips all its
-indices, `select 2 [s] = ok`, `select 2 [s, s] = error 0`. -/
-theorem C02_duplicate_counterexample : ¬ C02_monotone_goal := by
+/-- … was FALSE (FIXED FINDING C02-duplicate): handing the same signature twice stripped all its
+indices, `select 2 [s] = ok`, `select 2 [s, s] = error 0`; the repaired selection accepts both. -/
+theorem C02_duplicate_counterexample_before_repair : ¬ C02_monotone_goal_before_repair := by
   intro h
   obtain ⟨o, ho⟩ := h 2 [s1] [s1, s1] (List.Sublist.cons _ (List.Sublist.refl _)) dup_counterexample.1
   rw [dup_counterexample.2] at ho
   cases ho
 
-/-- non-vacuity: a two-signature list with a shared index meets `NoRepeat` and is aggregated -/
-example : NoRepeat [s1, s2] ∧ ∃ r, select 3 [s1, s2] = .ok r := by
-  refine ⟨⟨by decide, by decide⟩, ⟨_, rfl⟩⟩
+theorem C02_duplicate_repaired :
+    (∃ r, selectMerged 2 [s1] = .ok r) ∧ (∃ r, selectMerged 2 [s1, s1] = .ok r) := dup_repaired
+
+/-- non-vacuity: a list with a shared index AND a repeated signature is aggregated -/
+example : ∃ r, selectMerged 3 [s1, s2, s1] = .ok r := ⟨_, rfl⟩
 
 end C02
